@@ -123,6 +123,19 @@ def Prog.wfTop (p : Prog) : Bool :=
     | none => false
   | _ => false
 
+/-- The store is in the pure node language (every application has one output and a pure head, no nested graph values):
+the structural part of "the evaluator does not fail", reported by the driver for every real graph. -/
+def Prog.pureLang (p : Prog) : Bool :=
+  let noG (v : List Tok) : Bool := v.all (fun t => match t with | .gref _ => false | _ => true)
+  p.store.nodes.all (fun n =>
+    match n.origin with
+    | .none => true
+    | .app a => a.out == [.ref 0] && a.head.isPure && (a.pre ++ a.args ++ a.kwargs.map (·.2) ++ a.deps).all noG
+    | .proj _ _ => false) &&
+  (match p.top with
+   | [.gref k] => match p.store.graphs[k]? with | some g => noG g.output | none => false
+   | _ => false)
+
 /-- No pattern (`InlineGraph`) fires on the top-level graph object itself. -/
 def noTopInline (pats : List Pattern) (p : Prog) : Bool :=
   match p.top with
